@@ -186,7 +186,8 @@ fn parse_item(tok: &str) -> Option<Item> {
             "s" => true,
             _ => return None,
         },
-        time: f[3].parse().ok()?,
+        // the venues' epoch fields are unsigned (`u64` deserialisers): a negative time is no message (drivers: same)
+        time: f[3].parse::<i64>().ok().filter(|t| *t >= 0)?,
     })
 }
 
@@ -1280,7 +1281,301 @@ fn generate(seed: u64, n_cases: usize, tier: &str) {
             out.line(format!("msg {chan} {symbol} {chan_id} {}", items.join(" ")).trim_end().to_string());
         }
     }
+    // the input-domain family: separately seeded, after the random cases (which stay as they were)
+    generate_domain(seed, n_cases / 4, n_cases, &mut out);
     out.flush();
+}
+
+// ------------------------------------------------------------------------------------------ domain family
+// Input classes of the property's quantifier that the random family above produces never or almost never:
+// instrument SETS (empty, one instrument with base == quote, 30-40 instruments with numbered names where one name is
+// a prefix of another, case-variant twins + exact duplicates, the same base/quote under every kind / two expiries /
+// two strikes / call+put the pair accepts), MESSAGES (a sibling market that differs from a subscribed one only by
+// kind suffix, expiry, strike or C/P; first char dropped / char prepended / one char case-flipped; a subscribed market
+// on ANOTHER channel for the venues whose payload names its channel), VALUES (exact extremes 2^-27 .. 2^52, amount 0,
+// many-digit decimals where the event field is a Decimal) and TIMES (0, equal, decreasing by one, successive).
+
+/// extreme magnitudes that are exact both as f64 and as Decimal (dyadic rationals)
+const DYADIC_EXTREMES: [&str; 8] = [
+    "1000000000000",
+    "1099511627776.5",
+    "4503599627370496",
+    "123456789.015625",
+    "0.00000095367431640625",
+    "0.000000007450580596923828125",
+    "0.0009765625",
+    "1",
+];
+/// many-digit decimals for the kinds whose event fields are `Decimal` (L1 / L2 levels): no f64 in between
+const DECIMAL_EXTREMES: [&str; 6] = [
+    "0.00000001",
+    "123456789012.12345678",
+    "99999999999.99999999",
+    "1000000000000",
+    "0.1",
+    "31415.92653589793",
+];
+/// channel texts a venue that names the channel in its payload can send besides the subscribed one
+const OTHER_CHANNELS: [&str; 12] = [
+    "tickers", "bbo-tbt", "books", "trade", "trades", "Trades", "quote", "spot.book_ticker", "spot.trades",
+    "futures.trades", "options.trades", "futures.book_ticker",
+];
+
+fn reads_chan(ex: &str) -> bool {
+    ex == "okx" || ex == "bitmex" || ex.starts_with("gateio_")
+}
+
+/// every kind token the dynamic builder accepts for the venue, over two expiries / two strikes / both option kinds
+fn sibling_kinds(ex: &str) -> Vec<String> {
+    let opts = |d: &str| vec![format!("O{d}:30000:C"), format!("O{d}:30000:P"), format!("O{d}:3000:C")];
+    match ex {
+        "binance_futures_usd" | "bitmex" | "bybit_perpetuals_usd" | "gateio_perpetuals_usd" | "gateio_perpetuals_btc" => {
+            vec!["P".into()]
+        }
+        "gateio_futures_usd" | "gateio_futures_btc" => vec!["F20260327".into(), "F20260626".into(), "F20270101".into()],
+        "gateio_options" => [opts("20260327"), opts("20260626")].concat(),
+        "okx" => [
+            vec!["S".to_string(), "P".into(), "F20260327".into(), "F20260626".into()],
+            opts("20260327"),
+            vec!["O20260626:30000:C".into()],
+        ]
+        .concat(),
+        _ => vec!["S".into()],
+    }
+}
+
+fn mutate_symbol_more(rng: &mut Rng, s: &str) -> String {
+    let c: Vec<char> = s.chars().collect();
+    match rng.below(6) {
+        // suffix of a subscribed symbol
+        0 if c.len() > 1 => c[1..].iter().collect(),
+        // a subscribed symbol is a suffix of it
+        1 => format!("X{s}"),
+        // one letter in the other case
+        2 => {
+            let letters: Vec<usize> = (0..c.len()).filter(|i| c[*i].is_ascii_alphabetic()).collect();
+            let mut c = c.clone();
+            if !letters.is_empty() {
+                let i = *rng.pick(&letters);
+                c[i] = if c[i].is_ascii_uppercase() { c[i].to_ascii_lowercase() } else { c[i].to_ascii_uppercase() };
+            }
+            c.into_iter().collect()
+        }
+        // kind suffix dropped / added (BTC-USDT-SWAP <-> BTC-USDT, .._QUARTERLY_.. <-> .._)
+        3 => match s.rfind(['-', '_']) {
+            Some(i) if i > 0 => s[..i].to_string(),
+            _ => format!("{s}-SWAP"),
+        },
+        4 => format!("{s}-SWAP"),
+        // last digit changed (another expiry / strike) or a digit appended
+        _ => match c.iter().rposition(|x| x.is_ascii_digit()) {
+            Some(i) => {
+                let mut c = c.clone();
+                c[i] = if c[i] == '9' { '0' } else { (c[i] as u8 + 1) as char };
+                c.into_iter().collect()
+            }
+            None => format!("{s}0"),
+        },
+    }
+}
+
+fn generate_domain(seed: u64, n_extra: usize, first_id: usize, out: &mut Out) {
+    let mut rng = Rng::new(seed ^ 0xD0_4A_13);
+    for e in 0..n_extra {
+        let (ex, kind) = PAIRS[e % PAIRS.len()];
+        let round = e / PAIRS.len();
+        // the set class walks through all six per pair (shifted per pair so that a short run covers every class)
+        let set_class = (round + e % PAIRS.len()) % 6;
+        let rep = rng.below(4); // 0,1 formatted   2 verbatim   3 un-keyed
+        out.case(format!("{}-dom{set_class}-{ex}-{kind}", first_id + e + 1));
+        let kinds = sibling_kinds(ex);
+        let mk = |base: &str, quote: &str, k: &str| GInst {
+            base: base.into(),
+            quote: quote.into(),
+            kind: k.into(),
+            verbatim: None,
+            unkeyed: rep == 3,
+        };
+        let mut insts: Vec<GInst> = Vec::new();
+        match set_class {
+            // the empty set: every message is for an unsubscribed market
+            0 => {}
+            // one instrument whose base and quote are the same asset / differ only in case
+            1 => {
+                let a = *rng.pick(&ASSETS);
+                let b = if rng.chance(50) { a.to_string() } else { a.to_ascii_uppercase() };
+                insts.push(mk(a, &b, rng.pick(&kinds[..]).as_str()));
+            }
+            // 30-40 instruments, numbered names: btc1 is a prefix of btc12, a1+2 collides with a+12 on concatenating venues
+            2 => {
+                let n = rng.range(30, 40) as usize;
+                let stem = *rng.pick(&ASSETS);
+                for k in 0..n {
+                    let base = if k % 3 == 2 { rng.pick(&ASSETS).to_string() } else { format!("{stem}{}", k + 1) };
+                    let quote = *rng.pick(&["usdt", "USD", "2usd", "tc"]);
+                    insts.push(mk(&base, quote, rng.pick(&kinds[..]).as_str()));
+                }
+            }
+            // names that differ only in case, the same subscription twice, and something else
+            3 => {
+                let a = *rng.pick(&["btc", "eth", "a1", "c98", "xbt", "1inch"]);
+                let qt = *rng.pick(&["usdt", "usd", "Usd"]);
+                let k0 = rng.pick(&kinds[..]).clone();
+                insts.push(mk(a, qt, &k0));
+                insts.push(mk(&a.to_ascii_uppercase(), qt, &k0));
+                insts.push(mk(a, qt, &k0));
+                insts.push(mk(*rng.pick(&ASSETS), "usdc", rng.pick(&kinds[..]).as_str()));
+                if rng.chance(50) {
+                    let mut c: Vec<char> = a.chars().collect();
+                    c[0] = c[0].to_ascii_uppercase();
+                    insts.push(mk(&c.into_iter().collect::<String>(), &qt.to_ascii_uppercase(), &k0));
+                }
+            }
+            // one base/quote under every kind / expiry / strike / C-P the pair accepts, plus prefix relatives
+            4 => {
+                for k in &kinds {
+                    insts.push(mk("btc", "usd", k));
+                }
+                insts.push(mk("bt", "cusd", &kinds[0]));
+                insts.push(mk("b", "tc", &kinds[0]));
+                insts.push(mk("btc", "usdc", kinds.last().unwrap()));
+                insts.push(mk("btc", "us", &kinds[0]));
+            }
+            // a small random set as in the random family (the message / value / time classes are what differs)
+            _ => {
+                for _ in 0..rng.range(1, 4) {
+                    let base = rng.pick(&ASSETS).to_string();
+                    let quote = rng.pick(&ASSETS).to_string();
+                    insts.push(mk(&base, &quote, rng.pick(&kinds[..]).as_str()));
+                }
+            }
+        }
+        if rep == 2 {
+            for inst in insts.iter_mut() {
+                let sym = inst.venue_symbol(ex);
+                inst.verbatim = Some(if rng.chance(80) { sym } else { sym.to_ascii_lowercase() });
+            }
+        }
+        // shuffle so that the duplicates / twins are not always first
+        for i in (1..insts.len()).rev() {
+            insts.swap(i, rng.below(i as u64 + 1) as usize);
+        }
+        out.line(
+            format!("sub {ex} {kind} {}", insts.iter().map(|i| i.tok()).collect::<Vec<_>>().join(" "))
+                .trim_end()
+                .to_string(),
+        );
+        let outsider = mk(*rng.pick(&ASSETS), "dai", rng.pick(&kinds[..]).as_str());
+        // a sibling of a subscribed instrument: same base / quote, another kind / expiry / strike (unsubscribed
+        // unless the set holds it as well); for single-kind venues a base that extends the subscribed one
+        let sibling = |rng: &mut Rng, i: &GInst| -> GInst {
+            let others: Vec<&String> = kinds.iter().filter(|k| **k != i.kind).collect();
+            if others.is_empty() {
+                mk(&format!("{}{}", i.base, rng.pick(&["1", "x", "usd"])), &i.quote, &i.kind)
+            } else {
+                mk(&i.base, &i.quote, rng.pick(&others[..]).as_str())
+            }
+        };
+        let mut chan_ids: Vec<(String, u32)> = Vec::new();
+        if ex == "bitfinex" {
+            // channel ids from 0, with the largest u32 now and then
+            let mut next = rng.below(3) as u32;
+            for k in 0..insts.len() {
+                if rng.chance(85) {
+                    let sym = insts[k].sub_symbol(ex);
+                    if chan_ids.iter().any(|(s, _)| *s == sym) {
+                        continue;
+                    }
+                    let cid = if rng.chance(10) && !chan_ids.iter().any(|(_, c)| *c == u32::MAX) { u32::MAX } else { next };
+                    out.line(format!("conf trades {sym} {cid}"));
+                    chan_ids.push((sym, cid));
+                    next += rng.range(1, 2) as u32;
+                }
+            }
+        }
+        let n_msg = rng.range(4, 8);
+        let base_time: i64 = *rng.pick(&[0i64, 0, 1000, 1_700_000_000_000, 4_102_444_800_000]);
+        let mut last_time = base_time;
+        let f64_fields = kind == "trades" || kind == "liqs";
+        for _ in 0..n_msg {
+            let roll = rng.below(100);
+            let venue_chan = |i: &GInst| i.venue_channel(ex, kind);
+            let (symbol, mut chan) = if insts.is_empty() {
+                let o = if roll < 50 { outsider.clone() } else { mk("btc", "usdt", &kinds[0]) };
+                (o.venue_symbol(ex), venue_chan(&o).to_string())
+            } else if roll < 45 {
+                let i = rng.pick(&insts);
+                (i.sub_symbol(ex), venue_chan(i).to_string())
+            } else if roll < 55 {
+                (outsider.venue_symbol(ex), venue_chan(&outsider).to_string())
+            } else if roll < 72 {
+                let i = rng.pick(&insts).clone();
+                let sib = sibling(&mut rng, &i);
+                (sib.venue_symbol(ex), venue_chan(&sib).to_string())
+            } else {
+                let i = rng.pick(&insts);
+                (mutate_symbol_more(&mut rng, &i.venue_symbol(ex)), venue_chan(i).to_string())
+            };
+            if symbol.is_empty() {
+                continue;
+            }
+            // the subscribed market on another channel (only where the payload names its channel)
+            if reads_chan(ex) && rng.chance(22) {
+                chan = match rng.below(4) {
+                    0 => chan.to_ascii_uppercase(),
+                    1 => chan[..chan.len() - 1].to_string(),
+                    _ => rng.pick(&OTHER_CHANNELS).to_string(),
+                };
+            }
+            let chan_id = if ex == "bitfinex" {
+                match chan_ids.iter().find(|(s, _)| *s == symbol) {
+                    Some((_, c)) if rng.chance(85) => *c,
+                    _ => *rng.pick(&[0u32, 1, 2, 3, u32::MAX]),
+                }
+            } else {
+                0
+            };
+            let n_items = match kind {
+                "l1" => 2,
+                "liqs" => 1,
+                "l2" => rng.range(1, 2),
+                _ if ex == "bitfinex" => if rng.chance(20) { 0 } else { 1 },
+                _ if single_trade(ex) => 1,
+                _ => *rng.pick(&[0i64, 1, 2, 3, 5]),
+            } as usize;
+            let mut items = Vec::new();
+            let first_sell = rng.chance(50);
+            for j in 0..n_items {
+                let sell = if kind == "l2" { (j == 1) != first_sell } else { rng.chance(50) };
+                let value = |rng: &mut Rng, zero_pct: u64| -> String {
+                    if rng.chance(zero_pct) {
+                        (*rng.pick(&["0", "0.000", "0.0"])).to_string()
+                    } else if rng.chance(55) {
+                        if f64_fields || rng.chance(40) { *rng.pick(&DYADIC_EXTREMES) } else { *rng.pick(&DECIMAL_EXTREMES) }.to_string()
+                    } else {
+                        dyadic(rng, false)
+                    }
+                };
+                let price = value(&mut rng, if kind == "l1" { 12 } else { 0 });
+                let mut amount = value(&mut rng, 15);
+                let signed = ex == "bitfinex" || (ex.starts_with("gateio_") && ex != "gateio_spot");
+                if signed && rng.chance(50) && amount.parse::<Decimal>().is_ok_and(|d| !d.is_zero()) {
+                    amount = format!("-{amount}");
+                }
+                // times: equal to the previous one, one less, one more, or a jump; Kraken in steps of 125 ms
+                let unit = if ex == "kraken" { 125 } else { 1 };
+                let t = match rng.below(5) {
+                    0 | 1 => last_time,
+                    2 => (last_time - unit).max(0),
+                    3 => last_time + unit,
+                    _ => base_time + rng.range(0, 8000) * 125,
+                };
+                last_time = t;
+                items.push(format!("{price}:{amount}:{}:{t}", if sell { "s" } else { "b" }));
+            }
+            out.line(format!("msg {chan} {symbol} {chan_id} {}", items.join(" ")).trim_end().to_string());
+        }
+    }
 }
 
 fn main() {
